@@ -262,6 +262,21 @@ def case_builtin(case):
         r = np.asarray(bu.get_source_area(f, g))
         n += 1
         _check_bounds(list(f.ravel()), [float(t) for t in g.ravel()], r.ravel(), "built-in base function %s on an 8x6 grid (seed %d)" % (name, seed), v, "/builtin")
+        # a strictly increasing transformation applied IN PLACE to the base field the library handed out (np.arctan(g, out=g),
+        # then g = 2 g + 1): the base field is the caller's, the footprint is not touched by it, the rescaled field is unchanged
+        gg = bases[name]
+        if isinstance(gg, np.ndarray) and gg.dtype.kind == "f" and gg.flags.writeable:
+            f_before = f.copy()
+            np.arctan(gg, out=gg)
+            gg *= 2.0
+            gg += 1.0
+            r2 = np.asarray(bu.get_source_area(f, gg))
+            n += 1
+            if not np.array_equal(f, f_before):
+                v.append({"sub": "builtin-inplace", "sig": "builtin-inplace/footprint-changed/%s" % name, "msg": "transforming the base field returned by %s in place changed the footprint it was computed from (they share memory)" % name})
+                f[...] = f_before
+            elif r2.shape != r.shape or not np.allclose(r2, r, rtol=1e-12, atol=1e-12 * float(np.abs(f).sum())):
+                v.append({"sub": "builtin-inplace", "sig": "builtin-inplace/rescaled-changed/%s" % name, "msg": "rescaled field changes under a strictly increasing in-place transformation of the base field returned by %s" % name})
     # geometric meaning of the built-ins (ordering only)
     d2 = (X - mp[0]) ** 2 + (Y - mp[1]) ** 2
     if not np.array_equal(np.argsort(-bases["circular"].ravel(), kind="stable"), np.argsort(d2.ravel(), kind="stable")):
